@@ -910,6 +910,59 @@ func (g *gen) stmt() {
 			g.f("closure-loopvar")
 			fs := g.fresh("fs")
 			base := g.expr(tInt, 1)
+			if g.r.Intn(3) == 0 && !g.off("define-call-captured") {
+				// variables defined from the results of an interpreted call (aggregate and scalar results) in a
+				// statement executed several times: every execution must get fresh variables, which closures
+				// and pointers taken in one pass keep alive after later passes
+				g.f("define-call-captured")
+				ps, n := g.fresh("ps"), 2+g.r.Intn(3)
+				var def, ptrT, mut string
+				switch g.r.Intn(4) {
+				case 0:
+					def, ptrT, mut = "dp, dq := mkP(%s)", "*P", "dp.X++"
+				case 1:
+					def, ptrT, mut = "dp, dq := mkA(%s)", "*[3]int", "dp[1] += 7"
+				case 2:
+					def, ptrT, mut = "dp, dq := mkP1(%s), %[1]s", "*P", "dp.Y--"
+				default:
+					def, ptrT, mut = "dq, dp := mkI(%s)", "*int", "dp += 3"
+				}
+				g.line("var %s []func() string", fs)
+				g.line("var %s []%s", ps, ptrT)
+				body := func(iv string) {
+					g.line(def, iv+" + "+base)
+					g.line("%s = append(%s, func() string { %s; return fmt.Sprint(dp, dq) })", fs, fs, mut)
+					g.line("%s = append(%s, &dp)", ps, ps)
+				}
+				switch form := g.r.Intn(3); {
+				case form == 0:
+					g.line("for i := 0; i < %d; i++ {", n)
+					g.ind++
+					body("i")
+					g.ind--
+					g.line("}")
+				case form == 1 || g.inSwitch > 0:
+					g.line("for i := range %d {", n)
+					g.ind++
+					body("i")
+					g.ind--
+					g.line("}")
+				default:
+					i, lbl := g.fresh("gi"), g.fresh("Again")
+					g.line("%s := 0", i)
+					g.ind--
+					g.line("%s:", lbl)
+					g.ind++
+					body(i)
+					g.line("if %s++; %s < %d {", i, i, n)
+					g.line("\tgoto %s", lbl)
+					g.line("}")
+				}
+				g.line("for k, fn := range %s {", fs)
+				g.line("\tfmt.Println(fn(), *%s[k], fn())", ps)
+				g.line("}")
+				return
+			}
 			if g.r.Intn(3) == 0 && !g.off("goto-backward") && g.inSwitch == 0 {
 				// a loop made of a backward goto: every pass must get fresh variables for its := definitions
 				g.f("goto-backward")
@@ -1183,15 +1236,38 @@ func (g *gen) loop3() {
 	g.push()
 	g.declare(variable{name: i, t: tInt, readonly: true})
 	var header string
+	step := "+="
 	switch g.r.Intn(4) {
 	case 0:
 		header = fmt.Sprintf("for %s := %d; %s > 0; %s-- ", i, n, i, i)
+		step = "-="
 	case 1:
 		header = fmt.Sprintf("for %s := 0; %s < %d; %s += 2 ", i, i, 2*n, i)
 	default:
 		header = fmt.Sprintf("for %s := 0; %s < %d; %s++ ", i, i, n, i)
 	}
-	body := g.loopBody(lbl, nil, 1+g.r.Intn(4))
+	if g.r.Intn(12) == 0 && !g.off("loop-empty-body") {
+		// a loop whose body is empty (only the generated loop-variable nodes): F50, repaired by 78c1f77
+		g.f("loop-empty-body")
+		g.line("%s{", header)
+		g.line("}")
+		g.line("fmt.Println(%q)", g.fresh("after"))
+		g.pop()
+		return
+	}
+	var pre func()
+	if g.r.Intn(4) == 0 && !g.off("loopvar-assigned-in-body") {
+		// the body assigns its := loop variable (in the direction of the post statement, so the loop
+		// still terminates): the post statement and the condition must see the assignment (F24, repaired by 8ca6eff)
+		g.f("loopvar-assigned-in-body")
+		k, d := g.r.Intn(n+1), g.r.Intn(3)
+		pre = func() {
+			g.line("if %s == %d {", i, k)
+			g.line("\t%s %s %d", i, step, d)
+			g.line("}")
+		}
+	}
+	body := g.loopBody(lbl, pre, 1+g.r.Intn(4))
 	g.emitLoop(lbl, strings.TrimSpace(header), body)
 	g.pop()
 }
@@ -1273,6 +1349,14 @@ func (g *gen) loopRange() {
 	default:
 		g.f("range-slice-novar")
 		header = fmt.Sprintf("for range %s", g.atom(tSlice))
+		if g.r.Intn(4) == 0 && !g.off("loop-empty-body") {
+			g.f("loop-empty-body")
+			g.line("%s {", header)
+			g.line("}")
+			g.line("fmt.Println(%q)", g.fresh("after"))
+			g.pop()
+			return
+		}
 	}
 	body := g.loopBody(lbl, nil, 1+g.r.Intn(3))
 	g.emitLoop(lbl, header, body)
@@ -1455,6 +1539,15 @@ type P struct{ X, Y int }
 func (p P) Sum() int { return p.X + p.Y }
 
 func (p *P) Inc(d int) { p.X += d; p.Y -= d }
+
+// results of interpreted calls used by the define-call-captured construct
+func mkP(a int) (P, bool) { return P{a, a * 2}, a%2 == 0 }
+
+func mkA(a int) ([3]int, string) { return [3]int{a, a + 1, a * a}, fmt.Sprint("s", a) }
+
+func mkP1(a int) P { return P{a, -a} }
+
+func mkI(a int) (string, int) { return fmt.Sprint("i", a), a * 3 }
 
 // ix maps any integer to a valid index of a non-empty sequence of length n.
 func ix(i, n int) int {
